@@ -332,4 +332,168 @@ theorem rotateLeft_rep {a : Arena V} {k : Ctx (Ent V)} {p : Nat} {cx cy : Color}
     · exact hkeep j hjx hjy (hnotB j hlt fun hbe h => hjB (h ▸ hB.rootIdx_mem hbe)) hjk
     · exact node_eq_of_size hsz' (by omega)
 
+/-- `rotate_right(x)` under an arbitrary context -/
+theorem rotateRight_rep {a : Arena V} {k : Ctx (Ent V)} {p : Nat} {cx cy : Color} {A B C : T (Ent V)}
+    {x y : Nat} {ex ey : Ent V} (hsize : a.nodes.size ≤ EMPTY)
+    (hctx : RepCtx a k x p) (hrep : Rep a x p (.node cx (.node cy A y ey B) x ex C))
+    (hnd : ((T.node cx (T.node cy A y ey B) x ex C).slots ++ ctxSlots k).Nodup) :
+    ∃ a', a.rotateRight x = some a' ∧ RepCtx a' k y p ∧
+      Rep a' y p (.node cy A y ey (.node cx B x ex C)) ∧
+      (∀ j, j ∉ (T.node cx (T.node cy A y ey B) x ex C).slots ++ ctxSlots k → a'.node j = a.node j) ∧
+      (k ≠ [] → a'.root = a.root) ∧
+      a'.unused = a.unused ∧ a'.cap = a.cap ∧ a'.dflt = a.dflt ∧ a'.nodes.size = a.nodes.size := by
+  obtain ⟨_, nx, hx, hxp, hxr, hxe, hyrep, hC⟩ := hrep
+  obtain ⟨hyeq, ny, hy, hyp, hyr, hye, hA, hB⟩ := hyrep
+  -- disjointness facts
+  simp only [T.slots_node, List.append_assoc, List.cons_append, List.nodup_append, List.nodup_cons,
+    List.mem_append, List.mem_cons, not_or] at hnd
+  obtain ⟨hAnd, ⟨⟨hyB, hyx, hyC, hyk⟩, ⟨hBnd, ⟨⟨hxC, hxk⟩, hCnd, hknd, hCk⟩, hBrest⟩⟩, hArest⟩ := hnd
+  have hxy' : x ≠ y := fun h => hyx h.symm
+  have hxB : x ∉ B.slots := fun h => hBrest x h x (Or.inl rfl) rfl
+  have hyx' : nx.left = y := hyeq
+  -- the root of B
+  have hBx : ny.right ≠ x := by
+    intro h
+    by_cases hbe : ny.right = EMPTY
+    · have := node_lt hx; omega
+    · exact hxB (h ▸ hB.rootIdx_mem hbe)
+  have hBy : ny.right ≠ y := by
+    intro h
+    by_cases hbe : ny.right = EMPTY
+    · have := node_lt hy; omega
+    · exact hyB (h ▸ hB.rootIdx_mem hbe)
+  -- the four local updates
+  let a1 := a.upd y fun n => { n with right := x }
+  let a2 := if ny.right = EMPTY then a1 else a1.upd ny.right fun n => { n with parent := x }
+  let a3 := a2.upd x fun n => { n with left := ny.right }
+  let a4 := a3.upd x fun n => { n with parent := y }
+  have hxlt := node_lt hx
+  have hylt := node_lt hy
+  have hstep : a.rotateRight x = a4.replaceParentsChild p x y := by
+    simp only [Arena.rotateRight, hx, Option.bind_eq_bind, Option.bind_some, hyx', hy]
+    rw [Arena.setRight_eq x hylt]
+    simp only [Option.bind_some]
+    by_cases hbe : ny.right = EMPTY
+    · have hbne : (ny.right != EMPTY) = false := by simp [hbe]
+      simp only [hbne, Bool.false_eq_true, if_false]
+      rw [Arena.setLeft_eq _ (by simpa using hxlt)]
+      simp only [Option.bind_some]
+      rw [Arena.setParent_eq _ (by simpa using hxlt)]
+      simp only [Option.bind_some, hxp, a4, a3, a2, a1, hbe, if_true]
+    · have hbne : (ny.right != EMPTY) = true := by simp [hbe]
+      obtain ⟨nb, hnb, _⟩ := hB.node_of_ne hbe
+      have hblt := node_lt hnb
+      simp only [hbne, if_true]
+      rw [Arena.setParent_eq _ (by simpa using hblt)]
+      simp only [Option.bind_some]
+      rw [Arena.setLeft_eq _ (by simpa using hxlt)]
+      simp only [Option.bind_some]
+      rw [Arena.setParent_eq _ (by simpa using hxlt)]
+      simp only [Option.bind_some, hxp, a4, a3, a2, a1, hbe, if_false]
+  -- node lookups in a4
+  have h4x : a4.node x = some { nx with left := ny.right, parent := y } := by
+    simp only [a4, a3, a2, a1]
+    split <;> simp [Ne.symm hxy', hx, hBx]
+  have h4y : a4.node y = some { ny with right := x } := by
+    simp only [a4, a3, a2, a1]
+    split <;> simp [hxy', hy, hBy]
+  have h4other : ∀ j, j ≠ x → j ≠ y → j ≠ ny.right → a4.node j = a.node j := by
+    intro j h1 h2 h3
+    simp only [a4, a3, a2, a1]
+    split <;> simp [Ne.symm h1, Ne.symm h2, Ne.symm h3]
+  have h4b : ny.right ≠ EMPTY → ∃ nb, a.node ny.right = some nb ∧ a4.node ny.right = some { nb with parent := x } := by
+    intro hbe
+    obtain ⟨nb, hnb, _⟩ := hB.node_of_ne hbe
+    refine ⟨nb, hnb, ?_⟩
+    simp only [a4, a3, a2, a1, hbe, if_false]
+    simp [Ne.symm hBx, Ne.symm hBy, hnb]
+  have h4size : a4.nodes.size = a.nodes.size := by
+    simp only [a4, a3, a2, a1]; split <;> simp
+  have h4root : a4.root = a.root := by simp only [a4, a3, a2, a1]; split <;> simp
+  -- B's root is not in the context
+  have hBk : ny.right ≠ EMPTY → ny.right ∉ ctxSlots k := by
+    intro hbe hmem
+    exact (hBrest ny.right (hB.rootIdx_mem hbe) ny.right (Or.inr (Or.inr hmem))) rfl
+  have hctx4 : RepCtx a4 k x p := by
+    refine RepCtx.congr (a := a) ?_ h4root hctx
+    intro s hs
+    refine h4other s (fun h => hxk (h ▸ hs)) (fun h => hyk (h ▸ hs)) ?_
+    intro h
+    by_cases hbe : ny.right = EMPTY
+    · have := hctx.slots_lt s hs; omega
+    · exact hBk hbe (h ▸ hs)
+  obtain ⟨a', hrp, hctx', hy', hother', hroot', hu', hc', hd', hs'⟩ :=
+    replaceParentsChild_ctx (a := a4) (by omega) hctx4 h4y ⟨_, h4x⟩ hxk hyk hknd
+  have hsz' : a'.nodes.size = a.nodes.size := by rw [hs', h4size]
+  have hkeep : ∀ s, s ≠ x → s ≠ y → s ≠ ny.right → s ∉ ctxSlots k → a'.node s = a.node s := by
+    intro s h1 h2 h3 h4
+    by_cases hlt : s < a.nodes.size
+    · rw [hother' s h2 (Ne.symm (hctx.parent_ne hsize hlt h4)), h4other s h1 h2 h3]
+    · exact node_eq_of_size hsz' (by omega)
+  have hnotB : ∀ s, s < a.nodes.size → (ny.right ≠ EMPTY → s ≠ ny.right) → s ≠ ny.right := by
+    intro s hlt h heq
+    by_cases hbe : ny.right = EMPTY
+    · omega
+    · exact h hbe heq
+  refine ⟨a', by rw [hstep]; exact hrp, hctx', ?_, ?_, (fun h => by rw [hroot' h, h4root]), by rw [hu']; simp only [a4, a3, a2, a1]; split <;> simp,
+    by rw [hc']; simp only [a4, a3, a2, a1]; split <;> simp, by rw [hd']; simp only [a4, a3, a2, a1]; split <;> simp,
+    hsz'⟩
+  · -- the rotated subtree
+    have hpx : p ≠ x := hctx.parent_ne hsize hxlt hxk
+    have hnodeA : ∀ s ∈ A.slots, a'.node s = a.node s := by
+      intro s hs
+      have hlt := hA.slots_lt s hs
+      refine hkeep s (hArest s hs x (Or.inr (Or.inr (Or.inl rfl)))) (hArest s hs y (Or.inl rfl))
+        (hnotB s hlt fun hbe => hArest s hs _ (Or.inr (Or.inl (hB.rootIdx_mem hbe))))
+        (fun hm => hArest s hs s (Or.inr (Or.inr (Or.inr (Or.inr hm)))) rfl)
+    have hnodeC : ∀ s ∈ C.slots, a'.node s = a.node s := by
+      intro s hs
+      have hlt := hC.slots_lt s hs
+      refine hkeep s (fun h => hxC (h ▸ hs)) (fun h => hyC (h ▸ hs))
+        (hnotB s hlt fun hbe h => hBrest _ (hB.rootIdx_mem hbe) s (Or.inr (Or.inl hs)) h.symm)
+        (fun hm => hCk s hs s hm rfl)
+    have hx' : a'.node x = some { nx with left := ny.right, parent := y } := by
+      rw [hother' x hxy' (Ne.symm hpx), h4x]
+    refine ⟨rfl, _, hy', rfl, hyr, hye, Rep.congr hnodeA hA, ?_⟩
+    refine ⟨rfl, _, hx', rfl, hxr, hxe, ?_, Rep.congr hnodeC hC⟩
+    -- B, re-parented to x
+    cases B with
+    | leaf => exact hB
+    | node cb Bl sb eb Br =>
+      obtain ⟨hbi, nb, hb1, hb2, hb3, hb4, hb5, hb6⟩ := hB
+      have hblt := node_lt hb1
+      have hbe : ny.right ≠ EMPTY := by omega
+      have hsbk : sb ∉ ctxSlots k := by rw [← hbi]; exact hBk hbe
+      have hpb : p ≠ sb := hctx.parent_ne hsize hblt hsbk
+      have hb' : a'.node sb = some { nb with parent := x } := by
+        obtain ⟨nb', hnb', hnb4⟩ := h4b hbe
+        rw [hbi] at hnb' hnb4
+        rw [hb1] at hnb'
+        cases hnb'
+        rw [hother' sb (by rw [← hbi]; exact hBy) (Ne.symm hpb), hnb4]
+      simp only [T.slots_node, List.nodup_append, List.nodup_cons, List.mem_cons] at hBnd
+      obtain ⟨hBlnd, ⟨hsbr, hBrnd⟩, hBdis⟩ := hBnd
+      have hsub : ∀ s, s ∈ Bl.slots ∨ s ∈ Br.slots → a'.node s = a.node s := by
+        intro s hs
+        have hsB : s ∈ (T.node cb Bl sb eb Br).slots := by
+          simp only [T.slots_node, List.mem_append, List.mem_cons]
+          rcases hs with hs | hs
+          · exact Or.inl hs
+          · exact Or.inr (Or.inr hs)
+        refine hkeep s (hBrest s hsB x (Or.inl rfl)) (fun h => hyB (h ▸ hsB)) ?_
+          (fun hm => hBrest s hsB s (Or.inr (Or.inr hm)) rfl)
+        rw [hbi]; intro h
+        rcases hs with hs | hs
+        · exact hBdis s hs sb (Or.inl rfl) h
+        · exact hsbr (h ▸ hs)
+      exact ⟨hbi, _, hb', rfl, hb3, hb4, Rep.congr (fun s hs => hsub s (Or.inl hs)) hb5,
+        Rep.congr (fun s hs => hsub s (Or.inr hs)) hb6⟩
+  · -- frame
+    intro j hj
+    simp only [T.slots_node, List.append_assoc, List.cons_append, List.mem_append, List.mem_cons, not_or] at hj
+    obtain ⟨hjA, hjy, hjB, hjx, hjC, hjk⟩ := hj
+    by_cases hlt : j < a.nodes.size
+    · exact hkeep j hjx hjy (hnotB j hlt fun hbe h => hjB (h ▸ hB.rootIdx_mem hbe)) hjk
+    · exact node_eq_of_size hsz' (by omega)
+
 end ITree
